@@ -632,7 +632,7 @@ def run(tier):
     # 6. compare
     known = {k['id']: k for k in lib.known_findings(PROP)}
     mon_fail, kf_hits, hard, soft, clean_mism, harness_err = [], [], [], [], [], []
-    n_ok = n_unsup = n_toy = n_cmp = 0
+    n_ok = n_unsup = n_toy = n_cmp = n_nontype = 0
     err_kinds, ok_kinds = {}, {}
     for i, (l, r) in enumerate(zip(lines, impl)):
         ires, text, bad, toyc = split_impl(r)
@@ -657,6 +657,9 @@ def run(tier):
             continue
         if m == 'ERR Unsupported':
             n_unsup += 1
+            continue
+        if ires.startswith('ERR NonType:'):
+            n_nontype += 1          # rejected by a cardinality / volatility rule, not by typing
             continue
         n_cmp += 1
         unclean = m.endswith(' unclean')
@@ -859,6 +862,7 @@ def run(tier):
         'traces_validated_against_impl': n_cmp + (len(plines) - n_pskip if pmodel is not None else 0),
         'expressions_compared': n_cmp,
         'model_abstains_unsupported': n_unsup,
+        'rejected_by_non_type_rule': n_nontype,
         'type_algebra_pairs_compared': len(plines) - n_pskip,
         'model_vs_impl_disagreements': len(hard) + len(pmism) + len(clean_mism),
         'both_reject_different_first_error': len(soft),
